@@ -58,10 +58,16 @@ impl Ctx {
     /// one expression: its AST (as given by the generator), the identity it declares, what MetaType reports
     pub fn expr<T: TypeInfo + ?Sized + 'static>(&mut self, ast: &str) {
         let m = meta_type::<T>();
-        let e: Value = serde_json::from_str(ast).unwrap();
         let decl = format!("{:?}", TypeId::of::<T::Identity>());
         let i = self.metas.len();
-        self.put(&json!({"ev": "Expr", "i": i, "e": e, "tid": tid(&m), "decl": decl, "info": meta_body(&m.type_info())}));
+        // the AST is spliced in as text: deeply nested expressions exceed serde_json's parse depth
+        let mut line = serde_json::to_string(&json!({"ev": "Expr", "i": i, "tid": tid(&m), "decl": decl, "info": meta_body(&m.type_info())})).unwrap();
+        line.pop();
+        line.push_str(",\"e\":");
+        line.push_str(ast);
+        line.push('}');
+        self.out.write_all(line.as_bytes()).unwrap();
+        self.out.write_all(b"\n").unwrap();
         self.metas.push(m);
     }
     /// register every expression, in order, in ONE registry; then the comparison matrices
